@@ -22,7 +22,8 @@ inductive Kind where
   | single | interleaved | neighbouring | hybrid
 deriving DecidableEq, Repr, Inhabited
 
-/-- a protocluster: identity, full extent, core extent, defining genes (by gene number) -/
+/-- a protocluster: identity, full extent, core extent, defining genes (by gene number: the value of the
+    `definition_cdses` property, see `mkProto`), product -/
 structure Proto where
   id : Nat
   loc : Loc
@@ -30,6 +31,29 @@ structure Proto where
   defs : List Nat
   product : String := ""
 deriving DecidableEq, Repr, Inhabited
+
+/-- a CDS feature as far as protocluster definition goes: its location and the products of its
+    CORE gene functions (`cds.gene_functions.get_by_function(GeneFunction.CORE)`) -/
+structure Gene where
+  id : Nat
+  loc : Loc
+  coreProducts : List String
+deriving DecidableEq, Repr, Inhabited
+
+/-- what `Record.add_protocluster` → `Protocluster.add_cds` store in `_definition_cdses`: the CDSs
+    within the protocluster's extent (`get_cds_features_within_location`) that lie inside its core and
+    carry a CORE gene function with the protocluster's product — for a sideloaded protocluster too -/
+def storedDefs (loc core : Loc) (product : String) (genes : List Gene) : List Nat :=
+  (genes.filter fun g =>
+    locationContainsOther loc g.loc && locationContainsOther core g.loc && g.coreProducts.contains product).map (·.id)
+
+/-- the `definition_cdses` property: a copy of the stored set for `Protocluster`, always empty for
+    `SideloadedProtocluster` ("a sideloaded protocluster cannot have definition cdses") -/
+def definitionCdses (sideloaded : Bool) (stored : List Nat) : List Nat := if sideloaded then [] else stored
+
+/-- a protocluster of a record with the given CDSs: `defs` is what `definition_cdses` returns -/
+def mkProto (id : Nat) (loc core : Loc) (product : String) (sideloaded : Bool) (genes : List Gene) : Proto :=
+  ⟨id, loc, core, definitionCdses sideloaded (storedDefs loc core product genes), product⟩
 
 /-- a candidate cluster: kind, member protoclusters (in the order the constructor received
     them), location (= `connect_locations` of the members' locations) -/
